@@ -297,7 +297,11 @@ def builtin(I, name: str, pos: list, kw: dict, st: State) -> Iterator[tuple[Stat
         if all(isinstance(p, int) for p in pos):
             yield st, range(*pos)
             return
-        raise OutsideSubset("range with symbolic bounds outside a summarised loop")
+        if len(pos) == 1 and V.is_z3(pos[0]) and pos[0].sort() == z3.IntSort():
+            n = pos[0]
+            yield st, SymSeq(None, "range", f"range({n})", z3.If(n > 0, n, 0))
+            return
+        raise OutsideSubset("range with symbolic bounds of this form")
     if name == "enumerate":
         items = I.concrete_iter(pos[0])
         if items is None:
@@ -585,19 +589,19 @@ def dict_method(I, d: SDict, name: str, pos: list, kw: dict, st: State) -> Itera
             return
         # symbolic key against concrete entries
         if V.is_z3(k) and not d.open:
-            done = st
-            for kk, vv in d.entries.items():
+            cur = st
+            for kk, vv in list(d.entries.items()):
                 c = eq(I, k, kk)
-                for s2, b in I.branch(done, c):
+                nxt = None
+                for s2, b in I.branch(cur, c):
                     if b:
                         yield s2, vv
                     else:
-                        done = s2
-                if done is st and False:
-                    pass
-            # no entry matched
-            if I.feasible(done):
-                yield done, default
+                        nxt = s2
+                if nxt is None:
+                    return
+                cur = nxt
+            yield cur, default
             return
         raise OutsideSubset("dict.get with a symbolic key on an open dict")
     if name in ("items", "keys", "values"):
